@@ -107,8 +107,14 @@ class StorageTools:
         path = os.path.join(storage, name)
         logger.debug("Writing %s" % path)
 
-        with open(path, 'w' if type(val) is str else 'wb') as attrFile:
+        # write to a temporary file and rename it over the target so that a crash during the
+        # write leaves the previous contents (e.g. the account's key pair) in place
+        tmp_path = path + ".tmp"
+        with open(tmp_path, 'w' if type(val) is str else 'wb') as attrFile:
             attrFile.write(val)
+            attrFile.flush()
+            os.fsync(attrFile.fileno())
+        getattr(os, "replace", os.rename)(tmp_path, path)
 
     @staticmethod
     def readProfileData(profile_name, name, default=None):
